@@ -375,6 +375,11 @@ func report(cr *checkResult, id, tier string, seed int, outDir string, writeBase
 	}
 	var discharged, failed, undecided, probesBad []*Obligation
 	nProbe := 0
+	// second chance for baseline obligations that ran out of time (a loaded machine): few at a time, three times the budget.
+	// Only `sat` answers and repeated failures become violations.
+	if baseline != nil && !writeBaseline {
+		retryTimedOut(cr, baseline, known, unclaimed, tier)
+	}
 	for _, o := range cr.obligations {
 		cr.solverTime += o.Time
 		if o.ExpectSat {
@@ -405,8 +410,18 @@ func report(cr *checkResult, id, tier string, seed int, outDir string, writeBase
 	}
 	if writeBaseline {
 		var names []string
+		slow := 0
 		for _, o := range discharged {
+			// claim only what discharges well under the quick budget: slower obligations are reported as
+			// undecided when they fail, never as violations
+			if o.Time > baselineMaxSecs() {
+				slow++
+				continue
+			}
 			names = append(names, o.Name)
+		}
+		if slow > 0 {
+			fmt.Printf("baseline: %d discharged obligations took more than %.0fs and are not claimed\n", slow, baselineMaxSecs())
 		}
 		sort.Strings(names)
 		os.MkdirAll(filepath.Join(verifDir, "baseline"), 0o755)
